@@ -140,6 +140,19 @@ func runC18(r *run) {
 			home + "/work/internal/a.go", "/tmp/node_modules/z.js", "/srv/build/acme/svc/main.go", "/mnt/vol/a.go", "/mnt/volume/a.go"}
 		for _, fl := range []slog.Flags{slog.Lprivacypath | slog.Lprivacypathregexp, slog.Lprivacypath, 0, slog.Lprivacypathregexp} {
 			slog.SetFlags(base | fl)
+			if g.chance(1, 2) {
+				// a scope with the privacy flags inverted, entered and left again; every path is looked at
+				// inside it: what was seen there must not stick
+				priv := slog.Lprivacypath | slog.Lprivacypathregexp
+				restore := slog.SaveFlagsAndMod(^fl&priv, fl&priv)
+				for _, p := range paths {
+					func() {
+						defer func() { _ = recover() }()
+						_ = slog.Safety(p)
+					}()
+				}
+				restore()
+			}
 			for _, p := range paths {
 				if r.tier == "quick" && g.chance(1, 2) {
 					continue
